@@ -244,7 +244,9 @@ class CallbackStore(Callback):
 
     def reset(self):
         """Clear the results list."""
-        self.results = []
+        # Clear in place: the list may be owned by the caller (``results``
+        # parameter) and must keep receiving the iterates after a reset
+        del self.results[:]
         self.iter = 0
 
     def __iter__(self):
